@@ -35,6 +35,9 @@ type Dag struct {
 	Gate func(ctx context.Context, c cid.Cid)
 	// OnAdd, when non-nil, is called after every Add (with the lock released).
 	OnAdd func(c cid.Cid, n int)
+	// FailNext: this many of the next Add calls fail without storing anything (a store outage); FailedAdds counts them
+	FailNext   int
+	FailedAdds int
 	// OnRemove, when non-nil, is called after every Remove.
 	OnRemove func(c cid.Cid)
 	Removes  []cid.Cid
@@ -83,6 +86,13 @@ func (m *Dag) GetMany(ctx context.Context, cs []cid.Cid) <-chan *ipld.NodeOption
 
 func (m *Dag) Add(ctx context.Context, n ipld.Node) error {
 	m.mu.Lock()
+	if m.FailNext > 0 {
+		// an outage: the write is refused and nothing is stored
+		m.FailNext--
+		m.FailedAdds++
+		m.mu.Unlock()
+		return errors.New("mockstore: block store unavailable")
+	}
 	m.Blocks[n.Cid()] = n
 	m.Adds = append(m.Adds, n.Cid())
 	cnt := len(m.Adds)
@@ -134,6 +144,7 @@ func (m *Dag) Snapshot(n int) *Dag {
 	return out
 }
 
+func (m *Dag) SetFailNext(n int) { m.mu.Lock(); m.FailNext = n; m.mu.Unlock() }
 func (m *Dag) NumAdds() int { m.mu.Lock(); defer m.mu.Unlock(); return len(m.Adds) }
 func (m *Dag) ResetGets()   { m.mu.Lock(); m.Gets = nil; m.mu.Unlock() }
 func (m *Dag) GetLog() []cid.Cid {
